@@ -9,6 +9,8 @@ mod grammar;
 mod render;
 mod replace;
 mod sem;
+#[cfg(feature = "f-utf16")]
+mod utf16;
 
 fn main() {
     // Panics of the code under test are data; keep stderr quiet about them.
@@ -27,6 +29,10 @@ fn main() {
         "render" => render::main(rest),
         "cpset" => cpset::main(rest),
         "fold" => fold::main(rest),
+        #[cfg(feature = "f-utf16")]
+        "sem16" => utf16::sem16(rest),
+        #[cfg(feature = "f-utf16")]
+        "u16robust" => utf16::u16robust(rest),
         other => {
             eprintln!("unknown command {}", other);
             2
